@@ -256,7 +256,19 @@ fn e1_main(a: &Args) -> i32 {
             // operations whose isolated evaluation kills or hangs the process were left out of the
             // executed run (run2); the violation about them is reproduced from the full description
             let base = if v.needs == "input-only" && v.property == "C01" { &run } else { &run2 };
-            let (min_run, min_v, execs) = if shrunk < max_shrunk && rep.crashed.is_none() {
+            let oracle_level = v.needs == "input-only" && v.property == "C17" && v.op.is_some();
+            let (min_run, min_v, execs) = if oracle_level {
+                // one operation, no schedule: minimise the operation against the clause that failed
+                let (vv, n) = shrink::shrink_oracle_level(&v, &mut oracle, 150);
+                let mut r = run2.clone();
+                r.threads = vec![vec![vv.op.clone().unwrap()]];
+                r.stack_kb = vec![2048];
+                r.fault = None;
+                r.schedule = Some(Vec::new());
+                r.strategy = sched::Strategy::Sequential(vec![0]);
+                r.ambient = ambient::Ambient::default();
+                (r, vv, n)
+            } else if shrunk < max_shrunk && rep.crashed.is_none() {
                 shrunk += 1;
                 let mut sh = shrink::Shrinker { oracle: &mut oracle, budget: 400, executions: 0 };
                 let (r, vv) = sh.shrink(base, &rep.choices, &v);
